@@ -26,22 +26,6 @@ theorem ContAttr.trim (a : ContAttr) : trimSpace a.print = a.core := by
   obtain ⟨c, t, hk, hc, _, _⟩ := a.key.print_cons
   exact trimSpace_replicate _ _ (by unfold ContAttr.core; rw [hk]; simpa using hc) a.core_reverse_stops
 
-theorem splitEq_append (k v : Str) (h : ∀ b ∈ k, b.toNat ≠ 61) : splitEq (k ++ 61 :: v) = some (k, v) := by
-  induction k with
-  | nil => simp [splitEq]
-  | cons b k ih =>
-    have hb : b.toNat ≠ 61 := h b (by simp)
-    simp only [List.cons_append, splitEq, beq_iff_eq, hb, if_false]
-    rw [ih (fun x hx => h x (by simp [hx]))]; rfl
-
-theorem splitEq_none (s : Str) (h : ∀ b ∈ s, b.toNat ≠ 61) : splitEq s = none := by
-  induction s with
-  | nil => rfl
-  | cons b s ih =>
-    have hb : b.toNat ≠ 61 := h b (by simp)
-    simp only [splitEq, beq_iff_eq, hb, if_false]
-    rw [ih (fun x hx => h x (by simp [hx]))]; rfl
-
 theorem ContAttr.split (a : ContAttr) :
     ∃ k v, splitEq a.core = some (k, v) ∧ trimSpace k = a.key.print ∧ trimSpace v = dec a.value := by
   have hv : trimSpace (sp 1 ++ dec a.value) = dec a.value := by
@@ -249,39 +233,45 @@ theorem ContHead.prefix (h : ContHead) :
   | mutex => decide
   | contention => decide
 
-theorem parseContention_printContention (cyc : CycFn) (d : ContDoc) (h : d.wf = true) :
-    parseContention cyc (printContention d) = .ok (expectedContention cyc d) := by
+theorem splitLines_printContention (d : ContDoc) (h : d.wf = true) : splitLines (printContention d) = d.lines := by
   simp only [ContDoc.wf, Bool.and_eq_true, List.all_eq_true, decide_eq_true_eq] at h
   obtain ⟨⟨⟨hattrs, hrecs⟩, hpost⟩, hmap⟩ := h
   have hmap' : ∀ m, d.map = some m → m.wf = true := by
     intro m hm; rw [hm] at hmap; exact hmap
-  have hlines : splitLines (printContention d) = d.lines := by
-    apply splitLines_unlines
-    intro l hl
-    simp only [ContDoc.lines, List.mem_append, List.mem_singleton, List.mem_flatMap] at hl
-    rcases hl with (((hl | ⟨a, ha, hl⟩) | ⟨r, hr, hl⟩) | hl) | hl
+  apply splitLines_unlines
+  intro l hl
+  simp only [ContDoc.lines, List.mem_append, List.mem_singleton, List.mem_flatMap] at hl
+  rcases hl with (((hl | ⟨a, ha, hl⟩) | ⟨r, hr, hl⟩) | hl) | hl
+  · subst hl
+    cases d.head with
+    | contentionz n =>
+      have h1 : LineOK (asc "--- contentionz ") := by decide
+      have h2 : LineOK (asc " ---") := by decide
+      simp only [ContHead.print]; lineok; exact ⟨h1, h2⟩
+    | mutex => decide
+    | contention => decide
+  · rcases hl with hl | hl
+    · exact LineOK_fillers (List.all_eq_true.2 (hattrs a ha).1) l hl
     · subst hl
-      cases d.head with
-      | contentionz n =>
-        have h1 : LineOK (asc "--- contentionz ") := by decide
-        have h2 : LineOK (asc " ---") := by decide
-        simp only [ContHead.print]; lineok; exact ⟨h1, h2⟩
-      | mutex => decide
-      | contention => decide
-    · rcases hl with hl | hl
-      · exact LineOK_fillers (List.all_eq_true.2 (hattrs a ha).1) l hl
-      · subst hl
-        have h1 : LineOK (if a.spaced then asc " = " else asc "=") := by cases a.spaced <;> decide
-        simp only [ContAttr.print]; lineok; exact ⟨LineOK_contKey _, h1⟩
-    · have hw := hrecs r hr
-      simp only [ContRec.wf, Bool.and_eq_true, List.all_eq_true] at hw
-      rcases hl with hl | hl
-      · exact LineOK_fillers (List.all_eq_true.2 hw.1.1.1) l hl
-      · subst hl
-        have hlit : LineOK (asc " @") := by decide
-        simp only [ContRec.print]; lineok; exact hlit
-    · exact LineOK_fillers (List.all_eq_true.2 hpost) l hl
-    · exact LineOK_tailLines LineOK_sentinelMemoryMap hmap' l hl
+      have h1 : LineOK (if a.spaced then asc " = " else asc "=") := by cases a.spaced <;> decide
+      simp only [ContAttr.print]; lineok; exact ⟨LineOK_contKey _, h1⟩
+  · have hw := hrecs r hr
+    simp only [ContRec.wf, Bool.and_eq_true, List.all_eq_true] at hw
+    rcases hl with hl | hl
+    · exact LineOK_fillers (List.all_eq_true.2 hw.1.1.1) l hl
+    · subst hl
+      have hlit : LineOK (asc " @") := by decide
+      simp only [ContRec.print]; lineok; exact hlit
+  · exact LineOK_fillers (List.all_eq_true.2 hpost) l hl
+  · exact LineOK_tailLines LineOK_sentinelMemoryMap hmap' l hl
+
+theorem parseContention_printContention (cyc : CycFn) (d : ContDoc) (h : d.wf = true) :
+    parseContention cyc (printContention d) = .ok (expectedContention cyc d) := by
+  have hlines := splitLines_printContention d h
+  simp only [ContDoc.wf, Bool.and_eq_true, List.all_eq_true, decide_eq_true_eq] at h
+  obtain ⟨⟨⟨hattrs, hrecs⟩, hpost⟩, hmap⟩ := h
+  have hmap' : ∀ m, d.map = some m → m.wf = true := by
+    intro m hm; rw [hm] at hmap; exact hmap
   unfold parseContention
   rw [hlines]
   unfold ContDoc.lines
